@@ -58,7 +58,7 @@ var ifaceIntrinsics = map[string]ifaceIntrinsic{}
 var assumptionText = map[string]string{
 	"A-LEN":    "slice/string lengths are below 2^40 and int is 64-bit, so int arithmetic on lengths is mathematical; fixed-width unsigned arithmetic is modelled exactly",
 	"A-SEP":    "distinct pointer-typed inputs (and pointer fields of inputs) reference distinct objects (tree-shaped inputs)",
-	"A-APPEND": "append is modelled as value-level concatenation; sharing of spare capacity between an append result and its argument is not modelled",
+	"A-APPEND": "append is modelled as value-level concatenation; sharing of spare capacity between an append result and its argument is not modelled; its allocation is counted amortised (3x the appended bytes)",
 	"A-BIN":    "encoding/binary: big-endian fixed-size Read/Write, Uint16/32, PutUint16/32 behave as documented; a short binary.Read leaves the target unmodified and consumes what was there",
 	"A-BUF":    "bytes.Buffer (Read, ReadString, Bytes, Len, Reset, NewBuffer), bytes.IndexByte, strings.Join/Index, hex.EncodeToString behave as documented",
 	"A-POOL":   "bytebufferpool.Get returns an exclusively owned empty buffer; ByteBuffer.Write/WriteString/WriteByte append and never fail; after Put the buffer content is arbitrary",
@@ -68,6 +68,7 @@ var assumptionText = map[string]string{
 	"A-T0":     "the byte-sequence theory T0 (specs/theory/T0.smt2); 18 of its axioms are proved in Lean over List (Fin 256), the others are assumed",
 	"A-SOLVER": "at least one of z3 4.8.12, z3 5.1.0, cvc5 1.0 is sound on each query it answers unsat",
 	"A-SSA":    "go/packages + go/ssa build faithful SSA of /repo's working tree; govc's translation of the SSA subset is correct",
+	"A-TIME":   "time.Now returns some time value and does not panic",
 	"A-MD5":    "crypto/md5 is a function from byte strings to 16-octet digests",
 	"A-ATOI":   "time.Format(\"0102150405\") yields ten decimal digits that strconv.Atoi parses to a value below 2^32",
 	"A-HEX":    "hex.EncodeToString / DecodeString are inverse on their ranges; the encoding has two digits per octet and no NUL",
@@ -87,6 +88,7 @@ func (x *Exec) lenOut(t *Term) Value {
 func (x *Exec) newErr(st *State, name string, eof *Term) *IfaceVal {
 	e := Fresh("e."+name, SInt)
 	st.Assume(Ne(e, IntLit(0)))
+	st.Assume(Eq(App("errtag", SInt, e), IntLit(0)))
 	if eof != nil {
 		st.Assume(Eq(App("isEOFp", SBool, e), eof))
 	}
@@ -101,6 +103,8 @@ func (x *Exec) condErr(st *State, name string, ok, eofCond *Term) *IfaceVal {
 		st.Assume(Implies(Not(ok), Eq(App("isEOFp", SBool, e), eofCond)))
 	}
 	st.Assume(Implies(ok, Not(App("isEOFp", SBool, e))))
+	// errors produced by library calls are either nil or one of the stdlib's own values, never a sentinel of this module
+	st.Assume(Or(Eq(App("errtag", SInt, e), IntLit(0)), Eq(e, x.errConst("io.EOF")), Eq(e, x.errConst("io.ErrUnexpectedEOF"))))
 	return &IfaceVal{Sym: e}
 }
 
@@ -353,6 +357,10 @@ func init() {
 		st.Assume(Nonul(r))
 		x.countAllocN(st, Mul(IntLit(2), Len(s)))
 		return one(r)
+	})
+	reg("time.Now", func(x *Exec, st *State, fr *Frame, in ssa.Instruction, callee *ssa.Function, args []Value) []Value {
+		x.assume("A-TIME")
+		return one(x.freshValue(st, callee.Signature.Results().At(0).Type(), "now", false))
 	})
 	// ---- strings
 	reg("strings.Join", func(x *Exec, st *State, fr *Frame, in ssa.Instruction, callee *ssa.Function, args []Value) []Value {
